@@ -4,19 +4,48 @@
 From Beff Require Import Model.Printer Proofs.ResLemmas.
 
 (* ---------- trees print_runtype emits structurally ---------- *)
-Fixpoint plain_rt (r : rt) : bool :=
+(* `rej n`: the named type n rejects undefined; `objs n`: it rejects every value that is not an object
+   (both are hypotheses of the theorem, see rej_sound / objs_sound below) *)
+Definition cst_not_null (c : cst) : bool := match c with CNull => false | _ => true end.
+Fixpoint rejects_undef (rej : string -> bool) (r : rt) : bool :=
   match r with
-  | RAnyOfConsts _ | RDisc _ _ _ _ | RAllOf _ | RRegex _ _ | RTuple _ _ => false
-  | RAnyOf rs => forallb plain_rt rs
-  | RArray t | RSet t | ROptional t | RMeta _ t => plain_rt t
-  | RMap k v => plain_rt k && plain_rt v
-  | RObject props indexed => forallb (fun kv => plain_rt (snd kv)) props && forallb (fun kv => plain_rt (fst kv) && plain_rt (snd kv)) indexed
+  | RTypeof _ | RDate | RBigInt | RTypedArray _ | RStringFmt _ | RNumberFmt _ | RRegex _ _ | RArray _ | RTuple _ _
+  | RObject _ _ | RMap _ _ | RSet _ | RNever | RDisc _ _ _ _ => true
+  | RConst c => cst_not_null c
+  | RAnyOfConsts cs => forallb cst_not_null cs
+  | RMeta _ t => rejects_undef rej t
+  | RAnyOf rs => forallb (rejects_undef rej) rs
+  | RAllOf rs => match rs with [] => false | _ => true end
+  | RRef n => rej n
+  | _ => false
+  end.
+Fixpoint object_only (objs : string -> bool) (r : rt) : bool :=
+  match r with
+  | RObject _ _ | RDisc _ _ _ _ => true
+  | RMeta _ t => object_only objs t
+  | RRef n => objs n
+  | RAllOf rs => match rs with [] => false | _ => true end
+  | _ => false
+  end.
+
+Fixpoint plain_rt (rej objs : string -> bool) (r : rt) : bool :=
+  match r with
+  | RAnyOfConsts _ | RDisc _ _ _ _ | RRegex _ _ => false
+  | RTuple prefix rest =>
+      forallb (plain_rt rej objs) prefix && forallb (rejects_undef rej) prefix
+      && match rest with Some x => plain_rt rej objs x | None => true end
+  | RAllOf rs => forallb (plain_rt rej objs) rs && forallb (object_only objs) rs
+  | RAnyOf rs => forallb (plain_rt rej objs) rs
+  | RArray t | RSet t | ROptional t | RMeta _ t => plain_rt rej objs t
+  | RMap k v => plain_rt rej objs k && plain_rt rej objs v
+  | RObject props indexed => forallb (fun kv => plain_rt rej objs (snd kv)) props
+                             && forallb (fun kv => plain_rt rej objs (fst kv) && plain_rt rej objs (snd kv)) indexed
   | _ => true
   end.
 
-Definition env_printed (env : ienv) (prefer : list string) (renv' : renv) : Prop :=
+Definition env_printed (rej objs : string -> bool) (env : ienv) (prefer : list string) (renv' : renv) : Prop :=
   forall n body, assoc n env = Some body ->
-                 exists r pf, assoc n renv' = Some r /\ print env prefer pf body = Ok r /\ plain_rt r = true.
+                 exists r pf, assoc n renv' = Some r /\ print env prefer pf body = Ok r /\ plain_rt rej objs r = true.
 
 (* ---------- loops that agree pointwise agree ---------- *)
 Lemma forall_res_rel {A B} (p : A -> res bool) (q : B -> res bool) xs ys :
@@ -92,8 +121,8 @@ Lemma re_seq_eps_r a : re_seq a ReEps = a.
 Proof. destruct a; reflexivity. Qed.
 
 (* ---------- the union case of print: only the structural branch yields a plain tree ---------- *)
-Lemma print_anyof_plain env prefer f vs r :
-  print env prefer (S f) (IAnyOf vs) = Ok r -> plain_rt r = true ->
+Lemma print_anyof_plain rej objs env prefer f vs r :
+  print env prefer (S f) (IAnyOf vs) = Ok r -> plain_rt rej objs r = true ->
   exists rs, map_res (print env prefer f) vs = Ok rs /\ r = RAnyOf rs.
 Proof.
   cbn [print]. destruct vs as [|v0 vs']; [discriminate|]. set (vs := v0 :: vs').
@@ -112,12 +141,36 @@ Proof.
   intros H; inversion H; subst. discriminate.
 Qed.
 
+Lemma prefix_res_rel {A B C} (p : A -> C -> res bool) (q : B -> C -> res bool) d xs : forall ps qs idx,
+  Forall2 (fun x y => forall c a b, p x c = Ok a -> q y c = Ok b -> a = b) ps qs ->
+  forall a b, prefix_res p d xs ps idx = Ok a -> prefix_res q d xs qs idx = Ok b -> a = b.
+Proof.
+  induction ps as [|x ps IH]; intros qs idx HF a b Ha Hb; inversion HF as [|? y ? qs' Hxy HF']; subst; cbn [prefix_res] in Ha, Hb; [congruence|].
+  destruct (p x (nth idx xs d)) as [[|]|e] eqn:Ep; try discriminate; destruct (q y (nth idx xs d)) as [[|]|e] eqn:Eq; try discriminate;
+    try (specialize (Hxy _ _ _ Ep Eq); discriminate); [eapply IH; eauto|congruence].
+Qed.
+Lemma prefix_res_hits_default {B C} (q : B -> C -> res bool) d xs : forall qs idx ok,
+  idx <= List.length xs -> List.length xs < idx + List.length qs ->
+  Forall (fun r => forall b, q r d = Ok b -> b = false) qs ->
+  prefix_res q d xs qs idx = Ok ok -> ok = false.
+Proof.
+  induction qs as [|r qs IH]; intros idx ok Hle Hlt HF H; [cbn in Hlt; lia|].
+  inversion HF as [|? ? Hr HF']; subst. cbn [prefix_res] in H. cbn [List.length] in Hlt.
+  destruct (Nat.eq_dec idx (List.length xs)) as [E|E].
+  - rewrite nth_overflow in H by lia. destruct (q r d) as [[|]|e] eqn:Eq; try discriminate; [specialize (Hr _ eq_refl); discriminate|congruence].
+  - destruct (q r (nth idx xs d)) as [[|]|e] eqn:Eq; try discriminate; [|congruence]. apply (IH (S idx) ok); auto; lia.
+Qed.
+
 Section Correct.
   Variable F : formats.
   Variable env : ienv.
   Variable prefer : list string.
   Variable renv' : renv.
-  Hypothesis Henv : env_printed env prefer renv'.
+  Variable rej objs : string -> bool.
+  Hypothesis Henv : env_printed rej objs env prefer renv'.
+  Hypothesis rej_sound : forall n, rej n = true -> forall k s b, validate F renv' k s (RRef n) VUndef = Ok b -> b = false.
+  Hypothesis objs_sound : forall n, objs n = true -> forall v, is_object_type v = false -> exists k, validate F renv' k false (RRef n) v = Ok false.
+  Local Notation plain_rt := (plain_rt rej objs).
 
   Ltac bind_inv_as H p E :=
     match type of H with
@@ -129,6 +182,40 @@ Section Correct.
   Proof.
     induction xs as [|x xs IH]; cbn; intros H; [congruence|].
     destruct k as [|k]; cbn in H; [discriminate|]. apply IH. exact H.
+  Qed.
+
+  Lemma exists_res_all_false {A} (p : A -> res bool) l b : (forall x b', In x l -> p x = Ok b' -> b' = false) -> exists_res p l = Ok b -> b = false.
+  Proof.
+    induction l as [|x l IHl]; cbn [exists_res]; intros H Hb; [congruence|].
+    destruct (p x) as [[|]|e] eqn:E; try discriminate; [specialize (H x true (or_introl eq_refl) E); discriminate|].
+    apply IHl; [intros y b' Hy; apply H; right; exact Hy|exact Hb].
+  Qed.
+
+  Lemma rejects_undef_sound : forall k r s b, rejects_undef rej r = true -> validate F renv' k s r VUndef = Ok b -> b = false.
+  Proof.
+    induction k as [|k IH]; intros r s b Hr Hv; [discriminate|].
+    destruct r; cbn [rejects_undef] in Hr; try discriminate Hr; try (cbn in Hv; congruence).
+    - cbn [validate] in Hv. inversion Hv. destruct t; reflexivity.
+    - destruct c; try discriminate Hr; cbn [validate] in Hv; inversion Hv; reflexivity.
+    - cbn [validate] in Hv. inversion Hv. cbn [is_nullish andb].
+      assert (E1 : existsb (fun c => match c with CNull => true | _ => false end) values = false).
+      { clear -Hr. induction values as [|c cs IHc]; [reflexivity|]. cbn [forallb existsb] in *. apply andb_prop in Hr as [H0 H1]. rewrite (IHc H1). destruct c; try reflexivity; discriminate H0. }
+      rewrite E1. cbn [orb]. clear. induction values as [|c cs IHc]; [reflexivity|]. cbn [existsb]. rewrite IHc. destruct c as [| |[]|]; reflexivity.
+    - (* RAllOf *) destruct schemas as [|m rs]; [discriminate Hr|]. cbn [validate forall_res is_object_type typeof jstype_eqb negb] in Hv. congruence.
+    - (* RAnyOf *) cbn [validate] in Hv. refine (exists_res_all_false _ _ _ _ Hv). intros m b' Hm Hb'.
+      apply (IH m s b'); [rewrite forallb_forall in Hr; apply Hr; exact Hm|exact Hb'].
+    - (* RRef *) apply (rej_sound name Hr (S k) s b Hv).
+    - (* RMeta *) cbn [validate] in Hv. apply (IH r s b Hr Hv).
+  Qed.
+
+  Lemma object_only_sound : forall r, object_only objs r = true -> forall v, is_object_type v = false -> exists k, validate F renv' k false r v = Ok false.
+  Proof.
+    induction r; cbn [object_only]; intros Ho v Hv; try discriminate Ho.
+    - destruct schemas as [|m rs]; [discriminate Ho|]. exists 1. cbn [validate forall_res]. rewrite Hv. reflexivity.
+    - exists 1. cbn [validate]. rewrite Hv. reflexivity.
+    - exists 1. cbn [validate]. rewrite Hv. reflexivity.
+    - apply (objs_sound name Ho v Hv).
+    - destruct (IHr Ho v Hv) as [k Hk]. exists (S k). cbn [validate]. exact Hk.
   Qed.
 
   Lemma opt_wrap_agree k1 (IH : forall t v a pf r k2 b, rmember F env k1 t v = Ok a -> print env prefer pf t = Ok r -> plain_rt r = true ->
@@ -202,21 +289,60 @@ Section Correct.
       eapply (forall_res_rel _ _ _ _ (Forall2_same _ _ _) _ _ Hm Hv).
       Unshelve. intros x _ a0 b0 Ha0 Hb0. eapply IH; eauto.
     - (* ITuple *)
-      bind_inv_as Hp ps Eps. bind_inv_as Hp rr Err. inversion Hp; subst. discriminate Hpl.
+      bind_inv_as Hp ps Eps. bind_inv_as Hp rr Err. inversion Hp; subst. clear Hp.
+      cbn [plain_rt] in Hpl. apply andb_prop in Hpl as [Hpl Hplr]. apply andb_prop in Hpl as [Hplp Hrej].
+      cbn [validate] in Hv. destruct v; try congruence.
+      pose proof (map_res_Forall2 _ _ _ Eps) as F2.
+      assert (Hlen : List.length ps = List.length prefix) by (clear -F2; induction F2; cbn; congruence).
+      destruct (prefix_res (validate F renv' k2 false) VUndef xs ps 0) as [okv|e] eqn:Ev; cbn [bind] in Hv; [|discriminate].
+      destruct (Nat.ltb (List.length xs) (List.length prefix)) eqn:Eshort.
+      + (* shorter than the prefix: some missing position rejects undefined *)
+        apply Nat.ltb_lt in Eshort. inversion Hm; subst a.
+        assert (okv = false).
+        { apply (prefix_res_hits_default (validate F renv' k2 false) VUndef xs ps 0 okv); [lia|lia| |exact Ev].
+          apply Forall_forall. intros r0 Hr0 b0 Hb0. apply (rejects_undef_sound k2 r0 false b0); [rewrite forallb_forall in Hrej; apply Hrej; exact Hr0|exact Hb0]. }
+        subst okv. cbn [negb] in Hv. congruence.
+      + apply Nat.ltb_ge in Eshort.
+        destruct (prefix_res (rmember F env k1) VUndef xs prefix 0) as [okm|e] eqn:Em; cbn [bind] in Hm; [|discriminate].
+        assert (okm = okv).
+        { eapply (prefix_res_rel (rmember F env k1) (validate F renv' k2 false) VUndef xs prefix ps 0); [|exact Em|exact Ev].
+          apply (forallb_Forall2_r _ plain_rt) in F2; [|exact Hplp].
+          eapply Forall2_impl2; [exact F2|]. intros t0 r0 _ _ [Hp0 Hpl0] c a0 b0 Ha0 Hb0. eapply IH; eauto. }
+        subst okv. destruct okm; cbn [negb] in Hm, Hv; [|congruence].
+        destruct rest as [rt0|].
+        * bind_inv_as Err y Ey. inversion Err; subst rr. rewrite Hlen in Hv.
+          eapply (forall_res_rel _ _ _ _ (Forall2_same _ _ _) _ _ Hm Hv).
+          Unshelve. intros x _ a0 b0 Ha0 Hb0. eapply IH; eauto.
+        * inversion Err; subst rr. inversion Hm; inversion Hv; subst. rewrite Hlen.
+          destruct (Nat.eqb (List.length xs) (List.length prefix)) eqn:E1; destruct (Nat.ltb (List.length prefix) (List.length xs)) eqn:E2; try reflexivity.
+          -- apply Nat.eqb_eq in E1. apply Nat.ltb_lt in E2. lia.
+          -- apply Nat.eqb_neq in E1. apply Nat.ltb_ge in E2. lia.
     - (* IRef *)
       inversion Hp; subst. cbn [validate] in Hv.
       destruct (assoc name env) as [body|] eqn:Ea; [|discriminate].
       destruct (Henv _ _ Ea) as (r' & pf' & Hr' & Hpr' & Hpl'). rewrite Hr' in Hv. eapply IH; eauto.
     - (* IAnyOf *)
       assert (Hp' : print env prefer (S pf) (IAnyOf vs) = Ok r) by (cbn [print]; exact Hp).
-      destruct (print_anyof_plain env prefer pf vs r Hp' Hpl) as (rs & Hrs & ->).
+      destruct (print_anyof_plain rej objs env prefer pf vs r Hp' Hpl) as (rs & Hrs & ->).
       cbn [plain_rt] in Hpl. cbn [validate] in Hv.
       pose proof (map_res_Forall2 _ _ _ Hrs) as F2.
       eapply (exists_res_rel _ _ vs rs); [|exact Hm|exact Hv].
       apply (forallb_Forall2_r _ plain_rt) in F2; [|exact Hpl].
       eapply Forall2_impl2; [exact F2|]. intros t0 r0 _ _ [Hp0 Hpl0] a0 b0 Ha0 Hb0. eapply IH; eauto.
     - (* IAllOf *)
-      bind_inv_as Hp rs E0. inversion Hp; subst. discriminate Hpl.
+      bind_inv_as Hp rs E0. inversion Hp; subst. clear Hp. cbn [plain_rt] in Hpl. apply andb_prop in Hpl as [Hplm Hobj].
+      cbn [validate] in Hv. pose proof (map_res_Forall2 _ _ _ E0) as F2.
+      destruct (is_object_type v) eqn:Eo; cbn [negb] in Hv.
+      + eapply (forall_res_rel _ _ vs rs); [|exact Hm|exact Hv].
+        apply (forallb_Forall2_r _ plain_rt) in F2; [|exact Hplm].
+        eapply Forall2_impl2; [exact F2|]. intros t0 r0 _ _ [Hp0 Hpl0] a0 b0 Ha0 Hb0. eapply IH; eauto.
+      + (* not an object: the validator answers false at once; so does the first member of the intersection *)
+        inversion F2 as [|t0 r0 ts rs' Hp0 F2']; subst; [cbn in Hm, Hv; congruence|].
+        cbn [forall_res] in Hv. inversion Hv; subst b. cbn [forall_res] in Hm.
+        cbn [forallb] in Hplm, Hobj. apply andb_prop in Hplm as [Hpl0 _]. apply andb_prop in Hobj as [Ho0 _].
+        destruct (object_only_sound r0 Ho0 v Eo) as [k0 Hk0].
+        destruct (rmember F env k1 t0 v) as [[|]|e] eqn:Em0; try discriminate; [|congruence].
+        pose proof (IH t0 v true pf r0 k0 false Em0 Hp0 Hpl0 Hk0). discriminate.
     - (* IConst *)
       inversion Hp; subst. destruct c; cbn [cst_of_irconst validate] in Hv; destruct v; cbn in Hm, Hv; congruence.
     - (* IMap *)
@@ -236,3 +362,33 @@ Section Correct.
       bind_inv_as Hp r0 E0. inversion Hp; subst. cbn [plain_rt] in Hpl. cbn [validate] in Hv. eapply IH; eauto.
   Qed.
 End Correct.
+
+(* ---------- canonical choice of the two side tables: read them off the printed environment ---------- *)
+Definition rej_of (renv' : renv) (n : string) : bool :=
+  match assoc n renv' with Some r => rejects_undef (fun _ => false) r | None => false end.
+Definition objs_of (renv' : renv) (n : string) : bool :=
+  match assoc n renv' with Some r => object_only (fun _ => false) r | None => false end.
+
+Lemma rej_of_sound F renv' n : rej_of renv' n = true -> forall k s b, validate F renv' k s (RRef n) VUndef = Ok b -> b = false.
+Proof.
+  unfold rej_of. intros H k s b Hv. destruct k as [|k]; [discriminate|]. cbn [validate] in Hv.
+  destruct (assoc n renv') as [r|]; [|discriminate].
+  apply (rejects_undef_sound F renv' (fun _ => false) (fun n0 H0 => match Bool.diff_false_true H0 with end) k r s b H Hv).
+Qed.
+Lemma objs_of_sound F renv' n : objs_of renv' n = true -> forall v, is_object_type v = false -> exists k, validate F renv' k false (RRef n) v = Ok false.
+Proof.
+  unfold objs_of. intros H v Hv. destruct (assoc n renv') as [r|] eqn:Ea; [|discriminate].
+  destruct (object_only_sound F renv' (fun _ => false) (fun n0 H0 => match Bool.diff_false_true H0 with end) r H v Hv) as [k Hk].
+  exists (S k). cbn [validate]. rewrite Ea. exact Hk.
+Qed.
+
+Theorem print_plain_correct_env F env prefer renv' :
+  env_printed (rej_of renv') (objs_of renv') env prefer renv' ->
+  forall k1 t v a pf r k2 b,
+    rmember F env k1 t v = Ok a ->
+    print env prefer pf t = Ok r -> plain_rt (rej_of renv') (objs_of renv') r = true ->
+    validate F renv' k2 false r v = Ok b ->
+    a = b.
+Proof.
+  intros Henv. apply (print_plain_correct F env prefer renv' (rej_of renv') (objs_of renv') Henv (rej_of_sound F renv') (objs_of_sound F renv')).
+Qed.
